@@ -332,7 +332,7 @@ pub fn dest_plan(r: &mut Rng, with_faults: bool) -> DestPlan {
                 3 | 4 => DestFx::Error(28),
                 5 => DestFx::Error(5),
                 6 => DestFx::Panic,
-                _ => DestFx::Short(1),
+                _ => DestFx::Zero,
             };
             if !fx.iter().any(|(o, _)| *o == op) {
                 fx.push((op, kind));
@@ -2002,7 +2002,7 @@ pub fn c03_sweep(sc: &Scenario, res: &crate::run::RunResult, limit: usize) -> Ve
     // destination failures at every destination call
     let nops = d.dest.ops.len() as u32;
     for k in 0..nops {
-        for (name, fx) in [("error", DestFx::Error(28)), ("panic", DestFx::Panic), ("short", DestFx::Short(1)), ("eintr", DestFx::Interrupted)] {
+        for (name, fx) in [("error", DestFx::Error(28)), ("panic", DestFx::Panic), ("short", DestFx::Short(1)), ("eintr", DestFx::Interrupted), ("zero", DestFx::Zero)] {
             let fx2 = fx.clone();
             cands.push(with(format!("dest-{}@{}", name, k), &move |s| {
                 if let Workload::Dump(p) = &mut s.workload {
